@@ -54,7 +54,7 @@ func (r *replayer) build(dir string) (string, string) {
 		}
 		pkgName = f.Name.Name
 		for _, d := range f.Decls {
-			if fd, ok := d.(*ast.FuncDecl); ok && fd.Recv == nil && strings.HasPrefix(fd.Name.Name, "Verif") && fd.Type.Params.NumFields() == 0 {
+			if fd, ok := d.(*ast.FuncDecl); ok && fd.Recv == nil && strings.HasPrefix(fd.Name.Name, "Verif") && fd.Type.Params.NumFields() == 0 && (fd.Type.Results == nil || fd.Type.Results.NumFields() == 0) {
 				fns = append(fns, fd.Name.Name)
 			}
 		}
